@@ -124,6 +124,9 @@ type runCfg struct {
 	jitter  bool
 	// schedule of maintenance actions before op i: bit 0 commit, bit 1 drop cache, bit 2 commit+reopen
 	maint func(i int) int
+	// keepHandles: the client keeps using its container handles across cache drops instead of
+	// fetching them again
+	keepHandles bool
 }
 
 type runOut struct {
@@ -243,8 +246,11 @@ func runScript(ops []sop, cfg runCfg) (out runOut) {
 			}
 			if m&2 != 0 {
 				ps.DropCache()
-				// clients re-fetch their handles after a cache drop (HandlesCurrent)
+				// clients re-fetch their handles after a cache drop (HandlesCurrent), unless keepHandles
 				if err := func() error {
+					if cfg.keepHandles {
+						return nil
+					}
 					var err error
 					arr, err = atree.NewArrayWithRootID(ps, arrID)
 					if err != nil {
@@ -605,6 +611,22 @@ func cacheStream(cfg *Config) *hx.Stats {
 					return 0
 				}
 			}(),
+			// the same cache drops with the client holding on to its handles (no re-fetch)
+			"dropcache-after-every-commit+handles-kept": func(i int) int {
+				if i > 0 {
+					return 1 | 2
+				}
+				return 0
+			},
+			"dropcache-while-dirty+handles-kept": func(i int) int {
+				if i == 0 {
+					return 0
+				}
+				if i%9 == 8 {
+					return 1
+				}
+				return 2
+			},
 			"every-7th": func(i int) int {
 				if i%7 == 6 {
 					return 4
@@ -616,7 +638,7 @@ func cacheStream(cfg *Config) *hx.Stats {
 			},
 		}
 		for _, name := range hx.SortedKeys(scheds) {
-			o := runScript(script, runCfg{T: T, workers: 2, maint: scheds[name]})
+			o := runScript(script, runCfg{T: T, workers: 2, maint: scheds[name], keepHandles: strings.HasSuffix(name, "+handles-kept")})
 			st.Hit("schedule:" + name)
 			if o.err != "" {
 				viol(p, name+": "+o.err)
